@@ -19,6 +19,7 @@ type c12Case struct {
 	Argv   []string
 	ArgvB  []string // world B's command line (differs from Argv only in the required-satisfied mode)
 	EnvB   EnvState
+	PreB   []string  // world B: a command line the same application object rejects first (it writes the option, then an undeclared one)
 	After  *EnvState // world B: the environment the host program installs after the declarations (must not matter)
 	Mode   string
 	Typed  bool
@@ -29,6 +30,9 @@ func (c *c12Case) Describe() interface{} {
 	m := map[string]interface{}{"mode": c.Mode, "decls": describeDecls(c.DS), "spec": c.Spec, "argv": c.Argv, "env_world_B": c.EnvB.Describe()}
 	if c.After != nil {
 		m["env_world_B_after_the_declarations"] = c.After.Describe()
+	}
+	if c.PreB != nil {
+		m["world_B_first_rejects"] = c.PreB
 	}
 	if c.Mode == "required-satisfied" {
 		m["argv_world_B"] = c.ArgvB
@@ -158,6 +162,10 @@ func (c12Prop) Gen(t *Tape, ph *PhaseCfg) Case {
 					c.Target = o.decl.Key()
 					toks := append(append([]string{}, s.toks[:o.from]...), s.toks[o.to:]...)
 					c.ArgvB = append([]string{"app"}, toks...)
+					if t.Draw(2) == 0 {
+						// history: before that, the same object rejects the full command line preceded by an undeclared option
+						c.PreB = rejectedVariant(append([]string{"app"}, s.toks...))
+					}
 				}
 			}
 		}
@@ -211,6 +219,7 @@ func inFold(n *specNode, d *Decl) bool {
 }
 
 var envAfter *EnvState
+var preArgv []string
 
 type worldRun struct {
 	p        *Proc
@@ -218,6 +227,7 @@ type worldRun struct {
 	snap     map[string]VarSnap
 	specErr  bool
 	retried  bool
+	preBad   bool // the first invocation of the history was not the plain spec mismatch it was meant to be
 }
 
 func runWorld(ds *DeclSet, spec string, argv []string, env EnvState) *worldRun {
@@ -238,6 +248,7 @@ func runWorldAfter(ds *DeclSet, spec string, argv []string, env EnvState, after 
 }
 
 func runWorldBudget(ds *DeclSet, spec string, argv []string, env EnvState, budget int64) *worldRun {
+	preBad := false
 	env.Apply()
 	root := &CmdDecl{Name: "app", Spec: spec, Decls: ds.All(), Action: CB{Kind: CBReturn}}
 	app := &AppDecl{Root: root, Policy: flag.ContinueOnError}
@@ -250,10 +261,16 @@ func runWorldBudget(ds *DeclSet, spec string, argv []string, env EnvState, budge
 		if envAfter != nil {
 			envAfter.Apply()
 		}
+		if preArgv != nil {
+			err := inst.Cli.Run(preArgv)
+			preBad = err == nil || len(p.Events) != 0 || err.Error() != specMismatchText()
+			p.Events = nil
+			inst.ActionSnap = nil
+		}
 		return inst.Cli.Run(argv)
 	})
 	EnvState{}.Apply()
-	r := &worldRun{p: p}
+	r := &worldRun{p: p, preBad: preBad}
 	r.accepted = p.End == EndReturned && p.Err == nil && len(p.Observed()) == 1
 	if inst != nil {
 		r.snap = inst.ActionSnap
@@ -284,7 +301,16 @@ func (c12Prop) Exec(cc Case, st *Stats) *Violation {
 	}
 	st.Count("world_A_accepts")
 	st.Nontrivial(fnv64(fmt.Sprintf("%s|%q|%v", c.Spec, c.ArgvB, c.EnvB.Describe())))
+	preArgv = c.PreB
 	b := runWorldAfter(c.DS, c.Spec, c.ArgvB, c.EnvB, c.After)
+	preArgv = nil
+	if c.PreB != nil {
+		if b.preBad {
+			st.Count("skipped.first_invocation_not_a_plain_mismatch")
+			return nil
+		}
+		st.Count("reach.rejected_invocation_before_the_observed_one")
+	}
 	if c.After != nil {
 		st.Count("fired.env_changed_after_declaration")
 	}
@@ -343,4 +369,15 @@ func (c12Prop) Exec(cc Case, st *Stats) *Violation {
 // backtrack.
 func kfC12_1(c *c12Case, a, b *worldRun) bool {
 	return c.Typed && b.p.End == EndReturned && b.p.Err != nil && strings.HasPrefix(b.p.Err.Error(), "strconv.")
+}
+
+// rejectedVariant makes a command line a plain spec mismatch while leaving its option occurrences where the
+// matchers find them: an undeclared option at the very end, or (when a `--` would turn that into an operand) in front.
+func rejectedVariant(argv []string) []string {
+	for _, tok := range argv[1:] {
+		if tok == "--" {
+			return append([]string{argv[0], "--not-declared-anywhere"}, argv[1:]...)
+		}
+	}
+	return append(append([]string{}, argv...), "--not-declared-anywhere")
 }
